@@ -4,6 +4,7 @@ import (
 	"fmt"
 	"math"
 	"math/big"
+	"os"
 	"reflect"
 	"sort"
 	"strconv"
@@ -185,7 +186,19 @@ func matchLisp(obj slip.Object, n *Node, path string) *Diff {
 			return bad("object must be an assoc list of the same size")
 		}
 		seen := map[string]bool{}
-		for _, e := range l {
+		// the assoc list comes in map iteration order: judge it in key order
+		sorted := append(slip.List{}, l...)
+		sort.SliceStable(sorted, func(i, j int) bool {
+			pi, _ := sorted[i].(slip.List)
+			pj, _ := sorted[j].(slip.List)
+			if len(pi) == 0 || len(pj) == 0 {
+				return len(pi) < len(pj)
+			}
+			ki, _ := pi[0].(slip.String)
+			kj, _ := pj[0].(slip.String)
+			return ki < kj
+		})
+		for _, e := range sorted {
 			pair, ok := e.(slip.List)
 			if !ok || len(pair) != 2 {
 				return bad("assoc item must be a cons")
@@ -252,9 +265,31 @@ func writeForm(w *WOpts, dest string) string {
 
 // parseInto gets text into a bag through the named entry point.
 func (w *world) parseInto(entry, text string) (*flavors.Instance, *sl.Err) {
+	all, err := w.parseAll(entry, text)
+	if err != nil {
+		return nil, err
+	}
+	if len(all) != 1 {
+		return nil, &sl.Err{Class: "harness", Msg: fmt.Sprintf("%s delivered %d documents, 1 expected", entry, len(all))}
+	}
+	return all[0], nil
+}
+
+// parseAll gets text into bags through the named entry point; entry points
+// that take several documents deliver them in input order.
+func (w *world) parseAll(entry, text string) ([]*flavors.Instance, *sl.Err) {
 	w.let("txt", slip.String(text))
 	var src string
 	list := false
+	const collect = `(lambda (x) (setq acc (cons x acc)))`
+	file := func() *sl.Err {
+		name := "c18-input.sen"
+		if err := os.WriteFile(name, []byte(text), 0o600); err != nil {
+			return &sl.Err{Class: "harness", Msg: "cannot write the input file: " + err.Error()}
+		}
+		w.let("fname", slip.String(name))
+		return nil
+	}
 	switch entry {
 	case "", "make-bag":
 		src = `(make-bag txt)`
@@ -268,15 +303,32 @@ func (w *world) parseInto(entry, text string) (*flavors.Instance, *sl.Err) {
 	case "send-parse":
 		src = `(send (make-instance 'bag-flavor) :parse txt)`
 	case "json-parse":
-		src = `(let ((acc '())) (json-parse (lambda (x) (setq acc (cons x acc))) txt) acc)`
+		src = `(let ((acc '())) (json-parse ` + collect + ` txt) acc)`
 		list = true
 	case "json-parse-strict":
-		src = `(let ((acc '())) (json-parse (lambda (x) (setq acc (cons x acc))) txt t) acc)`
+		src = `(let ((acc '())) (json-parse ` + collect + ` txt t) acc)`
+		list = true
+	case "json-parse-stream":
+		src = `(let ((acc '())) (json-parse ` + collect + ` (make-string-input-stream txt)) acc)`
 		list = true
 	case "bag-read":
 		src = `(bag-read (make-instance 'bag-flavor) (make-string-input-stream txt))`
 	case "init-read":
 		src = `(make-instance 'bag-flavor :read (make-string-input-stream txt))`
+	case "load-bag":
+		if err := file(); err != nil {
+			return nil, err
+		}
+		src = `(load-bag fname)`
+	case "each-bag-stream":
+		src = `(let ((acc '())) (each-bag (make-string-input-stream txt) ` + collect + `) acc)`
+		list = true
+	case "each-bag-file":
+		if err := file(); err != nil {
+			return nil, err
+		}
+		src = `(let ((acc '())) (each-bag fname ` + collect + `) acc)`
+		list = true
 	case "discover":
 		// the document embedded in prose; the callback returns nil (= go on)
 		w.let("txt", slip.String("log line 17: "+text+" :end of line"))
@@ -289,18 +341,277 @@ func (w *world) parseInto(entry, text string) (*flavors.Instance, *sl.Err) {
 	if err != nil {
 		return nil, err
 	}
+	var objs slip.List
 	if list {
 		l, _ := res.(slip.List)
-		if len(l) != 1 {
-			return nil, &sl.Err{Class: "harness", Msg: fmt.Sprintf("%s delivered %d documents, 1 expected", entry, len(l))}
+		for i := len(l) - 1; 0 <= i; i-- { // acc is in reverse order of delivery
+			objs = append(objs, l[i])
 		}
-		res = l[0]
+	} else {
+		objs = slip.List{res}
 	}
-	inst, ok := bagOf(res)
-	if !ok {
-		return nil, &sl.Err{Class: "harness", Msg: "result is not a bag: " + sl.Show(res)}
+	out := make([]*flavors.Instance, len(objs))
+	for i, o := range objs {
+		inst, ok := bagOf(o)
+		if !ok {
+			return nil, &sl.Err{Class: "harness", Msg: "result is not a bag: " + sl.Show(o)}
+		}
+		out[i] = inst
 	}
-	return inst, nil
+	return out, nil
+}
+
+// ---------------------------------------------------------------- several documents in one input
+
+func execMulti(x *fw.Ctx, c Case) {
+	w := newWorld(x)
+	x.Cover("kind:multi")
+	x.Cover("multi:entry=" + c.Entry)
+	x.Cover(fmt.Sprintf("multi:documents=%d", len(c.Docs)))
+	if c.Probe != "" {
+		x.Cover("block:" + c.Probe)
+	}
+	w.obs["text"] = short(c.Text)
+	got, err := w.parseAll(c.Entry, c.Text)
+	if err != nil {
+		x.Fail(fmt.Sprintf("multi entry=%s fail=input-rejected %s", c.Entry, errSlug(err)), "%d %s documents rejected by %s: %s\ntext: %s", len(c.Docs), c.Fmt, c.Entry, err, c.Text)
+		return
+	}
+	if len(got) != len(c.Docs) {
+		x.Fail(fmt.Sprintf("multi entry=%s fail=document-count", c.Entry), "%s delivered %d documents, the text holds %d\ntext: %s", c.Entry, len(got), len(c.Docs), c.Text)
+		return
+	}
+	for i, b := range got {
+		if d := diffLoose(c.Docs[i], fromAny(b.Any)); d != nil {
+			x.Fail(fmt.Sprintf("multi entry=%s fail=document-differs", c.Entry), "document %d of %d delivered by %s differs from the one in the text %s\ntext: %s", i+1, len(got), c.Entry, d, c.Text)
+			return
+		}
+	}
+	// the delivered bags must be independent of each other
+	for i, b := range got {
+		if 1 < len(got) {
+			w.let("b", b)
+			if _, err := w.eval(`(bag-set b 99 "zz_probe")`); err == nil {
+				for j, o := range got {
+					if j != i {
+						if d := diffLoose(c.Docs[j], fromAny(o.Any)); d != nil {
+							x.Fail(fmt.Sprintf("multi entry=%s fail=documents-share-data", c.Entry), "setting a member in document %d changed document %d: %s", i+1, j+1, d)
+							return
+						}
+					}
+				}
+			}
+			break
+		}
+	}
+	x.Cover("multi:ok")
+}
+
+// ---------------------------------------------------------------- exact integers
+
+// execInts pushes one integer through one route between Lisp data and a bag
+// and requires the exact value, held as an integer, at the other end.
+func execInts(x *fw.Ctx, c Case) {
+	w := newWorld(x)
+	v := c.Int.V
+	via := c.Int.Via
+	x.Cover("kind:ints")
+	x.Cover("ints:via=" + via)
+	switch a := v; {
+	case a < 0 && -a < 0:
+		x.Cover("ints:magnitude=2^63")
+	case a > 1<<53 || a < -(1<<53):
+		x.Cover("ints:magnitude>2^53")
+	default:
+		x.Cover("ints:magnitude<=2^53")
+	}
+	if c.Probe != "" {
+		x.Cover("block:" + c.Probe)
+	}
+	fix := slip.Fixnum(v)
+	w.let("v", fix)
+	bad := func(what, format string, a ...any) {
+		x.Fail(fmt.Sprintf("ints via=%s fail=%s", via, what), "integer %d via %s: %s", v, via, fmt.Sprintf(format, a...))
+	}
+	// judge a Go value that must be int64(v)
+	judgeAny := func(where string, got any) bool {
+		n := fromAny(got)
+		switch {
+		case n.K == kInt && n.I == v:
+			return true
+		case n.isNum():
+			if q, ok := n.ratVal(); ok && q.Cmp(new(big.Rat).SetInt64(v)) == 0 {
+				bad("kind-changed", "%s holds the value as %s (%s), not as an integer", where, n.subKind(), n.brief())
+			} else {
+				bad("value-changed", "%s holds %s (%s)", where, n.brief(), n.subKind())
+			}
+		default:
+			bad("value-changed", "%s holds %s (%s)", where, n.brief(), n.subKind())
+		}
+		return false
+	}
+	judgeLisp := func(where string, got slip.Object) bool {
+		if f, ok := got.(slip.Fixnum); ok && int64(f) == v {
+			return true
+		}
+		bad("lisp-value-changed", "%s is %s (%s)", where, sl.Show(got), sl.Kind(got))
+		return false
+	}
+	at := func(b *flavors.Instance, l loc) (any, bool) {
+		n := b.Any
+		for _, s := range l {
+			switch tn := n.(type) {
+			case []any:
+				if !s.Nth || len(tn) <= s.Idx {
+					return nil, false
+				}
+				n = tn[s.Idx]
+			case map[string]any:
+				var ok bool
+				if n, ok = tn[s.Key]; !ok || s.Nth {
+					return nil, false
+				}
+			default:
+				return nil, false
+			}
+		}
+		return n, true
+	}
+	check := func(src string, where loc, getPath string) {
+		res, err := w.eval(src)
+		if err != nil {
+			bad(errSlug(err), "%s => %s", src, err)
+			return
+		}
+		b, ok := bagOf(res)
+		if !ok {
+			bad("result-type", "%s => %s", src, sl.Show(res))
+			return
+		}
+		got, found := at(b, where)
+		if !found {
+			bad("value-missing", "%s: nothing at %s in %s", src, where, short(fromAny(b.Any).canon()))
+			return
+		}
+		if !judgeAny(src+" at "+where.String(), got) {
+			return
+		}
+		w.let("r", b)
+		w.let("gp", slip.String(getPath))
+		back, err := w.eval(`(bag-get r gp)`)
+		if getPath == "" {
+			back, err = w.eval(`(bag-get r)`)
+		}
+		if err != nil {
+			bad("get-"+errSlug(err), "(bag-get r %q) => %s", getPath, err)
+			return
+		}
+		if judgeLisp(fmt.Sprintf("(bag-get r %q) after %s", getPath, src), back) {
+			x.Cover("ints:exact")
+		}
+	}
+	holder := func() *flavors.Instance {
+		inst := bag.Flavor().MakeInstance().(*flavors.Instance)
+		inst.Any = map[string]any{"a": []any{v, "s"}, "k": map[string]any{"n": v}}
+		return inst
+	}
+	switch via {
+	case "set-path":
+		check(`(bag-set (make-bag "{a:[0 1]}") v "a[1]")`, loc{{Key: "a"}, {Idx: 1, Nth: true}}, "a[1]")
+	case "set-new":
+		check(`(bag-set (make-bag "{}") v "n.m")`, loc{{Key: "n"}, {Key: "m"}}, "n.m")
+	case "set-root":
+		check(`(bag-set (make-bag "{}") v)`, loc{}, "")
+	case "set-in-list":
+		w.let("val", slip.List{slip.String("s"), fix, slip.List{fix}})
+		check(`(bag-set (make-bag "{}") val "l")`, loc{{Key: "l"}, {Idx: 2, Nth: true}, {Idx: 0, Nth: true}}, "l[1]")
+	case "set-in-assoc":
+		w.let("val", slip.List{slip.List{slip.String("n"), slip.Tail{Value: fix}}, slip.List{slip.Symbol("m"), slip.Tail{Value: slip.List{fix}}}})
+		check(`(bag-set (make-bag "[0]") val "[0]")`, loc{{Idx: 0, Nth: true}, {Key: "n"}}, "[0].m[0]")
+	case "send-set":
+		check(`(send (make-bag "{a:1}") :set v "a")`, loc{{Key: "a"}}, "a")
+	case "make-bag-native":
+		w.let("val", slip.List{fix, slip.List{slip.List{slip.String("n"), slip.Tail{Value: fix}}}})
+		check(`(make-bag val)`, loc{{Idx: 1, Nth: true}, {Key: "n"}}, "[0]")
+	case "make-instance-set":
+		w.let("val", slip.List{slip.List{slip.String("n"), slip.Tail{Value: fix}}})
+		check(`(make-instance 'bag-flavor :set val)`, loc{{Key: "n"}}, "n")
+	case "native-trip":
+		w.let("h", holder())
+		nat, err := w.eval(`(bag-native h)`)
+		if err != nil {
+			bad(errSlug(err), "(bag-native h) => %s", err)
+			return
+		}
+		want := nObj().put("a", nArr(nInt(v), nStr("s"))).put("k", nObj().put("n", nInt(v)))
+		if d := matchLisp(nat, want, "$"); d != nil {
+			bad("lisp-value-changed", "(bag-native h) is %s: %s", short(sl.Show(nat)), d)
+			return
+		}
+		w.let("val", nat)
+		check(`(make-bag val)`, loc{{Key: "k"}, {Key: "n"}}, "a[0]")
+	case "modify", "modify-as-bag":
+		w.let("h", holder())
+		src := `(bag-modify h (lambda (x) x) "a[0]")`
+		if via == "modify-as-bag" {
+			src = `(bag-modify h (lambda (x) x) "a" :as-bag t)`
+		}
+		check(src, loc{{Key: "a"}, {Idx: 0, Nth: true}}, "k.n")
+	case "get-all-native":
+		w.let("h", holder())
+		res, err := w.eval(`(bag-get-all h "..n" :native)`)
+		if err != nil {
+			bad(errSlug(err), "bag-get-all => %s", err)
+			return
+		}
+		if l, _ := res.(slip.List); len(l) == 1 && judgeLisp(`(bag-get-all h "..n" :native)`, l[0]) {
+			x.Cover("ints:exact")
+		} else if len(l) != 1 {
+			bad("lisp-value-changed", "(bag-get-all h \"..n\" :native) => %s", sl.Show(res))
+		}
+	case "walk":
+		w.let("h", holder())
+		res, err := w.eval(`(let ((acc '())) (bag-walk h (lambda (x) (setq acc (cons x acc))) "a[0]") acc)`)
+		if err != nil {
+			bad(errSlug(err), "bag-walk => %s", err)
+			return
+		}
+		if l, _ := res.(slip.List); len(l) == 1 && judgeLisp(`bag-walk on "a[0]"`, l[0]) {
+			x.Cover("ints:exact")
+		} else if len(l) != 1 {
+			bad("lisp-value-changed", "bag-walk on a[0] collected %s", sl.Show(res))
+		}
+	case "write-json", "write-sen":
+		w.let("h", holder())
+		src := `(bag-write h :pretty nil :json t)`
+		if via == "write-sen" {
+			src = `(bag-write h :pretty t :json nil)`
+		}
+		res, err := w.eval(src)
+		out, _ := res.(slip.String)
+		if err != nil {
+			bad(errSlug(err), "%s => %s", src, err)
+			return
+		}
+		// the decimal digits of v must appear twice, delimited by non-digits
+		digits := strconv.FormatInt(v, 10)
+		n := 0
+		text := string(out)
+		for i := 0; i+len(digits) <= len(text); i++ {
+			if text[i:i+len(digits)] == digits &&
+				(i == 0 || !strings.ContainsRune("0123456789.-", rune(text[i-1]))) &&
+				(i+len(digits) == len(text) || !strings.ContainsRune("0123456789.eE", rune(text[i+len(digits)]))) {
+				n++
+			}
+		}
+		if n != 2 {
+			bad("written-value-changed", "%s => %s", src, text)
+			return
+		}
+		x.Cover("ints:exact")
+	default:
+		panic("unknown ints via " + via)
+	}
 }
 
 func execText(x *fw.Ctx, c Case) {
@@ -1071,6 +1382,9 @@ func (w *world) observeAll(model *Node, b *flavors.Instance, phase string) bool 
 		}
 	}
 	x.CoverN("path:locations-checked", n)
+	if !w.observeScan(model, phase, n%2 == 0) {
+		return false
+	}
 	for i, p := range []Path{{fWild()}, {fDescent()}, {fDescent(), fWild()}, {fDescent(), fNth(0)}, {fDescent(), fNth(-1)}, {fWild(), fWild()}} {
 		if len(p) == 1 && p[0].K == "descent" && !model.isContainer() {
 			continue // ".." by itself on a scalar document: the notation does not say whether the root is a match
@@ -1086,6 +1400,165 @@ func (w *world) observeAll(model *Node, b *flavors.Instance, phase string) bool 
 	return true
 }
 
+// observeScan: bag-scan must visit every node of the document exactly once,
+// parents before their children, with the value a get of the reported path
+// returns; with :leaves-only only nodes without children.
+func (w *world) observeScan(model *Node, phase string, send bool) bool {
+	x := w.x
+	fail := func(what, format string, a ...any) bool {
+		x.Fail("path op=scan fail="+what, "[%s] bag-scan on %s: %s", phase, short(model.canon()), fmt.Sprintf(format, a...))
+		return false
+	}
+	type entry struct {
+		path string
+		val  string
+	}
+	scan := func(src string) ([]entry, bool) {
+		res, err := w.eval(src)
+		if err != nil {
+			if err.Internal {
+				return nil, fail("internal-fault", "%s => %s", src, err)
+			}
+			return nil, fail("error", "%s => %s", src, err)
+		}
+		l, _ := res.(slip.List)
+		out := make([]entry, 0, len(l))
+		for i := len(l) - 1; 0 <= i; i-- {
+			pair, _ := l[i].(slip.List)
+			if len(pair) != 2 {
+				return nil, fail("callback-arguments", "%s collected %s", src, short(sl.Show(l[i])))
+			}
+			ps, ok := pair[0].(slip.String)
+			if !ok {
+				return nil, fail("callback-arguments", "the path argument is %s", short(sl.Show(pair[0])))
+			}
+			e := entry{path: string(ps)}
+			if inst, isBag := bagOf(pair[1]); isBag {
+				n := fromAny(inst.Any)
+				if !n.isContainer() {
+					return nil, fail("callback-arguments", "a leaf (%s) was handed over as a bag", n.brief())
+				}
+				e.val = nodeLispCanon(n)
+			} else {
+				e.val = lispCanon(pair[1])
+			}
+			out = append(out, e)
+		}
+		return out, true
+	}
+	fn := `(lambda (p v) (setq acc (cons (list p v) acc)))`
+	src := `(let ((acc '())) (bag-scan b ` + fn + `) acc)`
+	if send {
+		src = `(let ((acc '())) (send b :scan ` + fn + `) acc)`
+	}
+	got, ok := scan(src)
+	if !ok {
+		return false
+	}
+	locs := allLocs(model)
+	want := make([]string, len(locs))
+	for i, m := range locs {
+		want[i] = nodeLispCanon(m.node)
+	}
+	vals := make([]string, len(got))
+	seen := map[string]bool{}
+	for i, e := range got {
+		vals[i] = e.val
+		if seen[e.path] {
+			return fail("node-visited-twice", "%s reported path %s twice", src, e.path)
+		}
+		seen[e.path] = true
+	}
+	sort.Strings(want)
+	sort.Strings(vals)
+	if strings.Join(want, "\x00") != strings.Join(vals, "\x00") {
+		return fail("disagrees-with-get", "%s visited %d nodes %s, the document has %d: %s", src, len(vals), short(strings.Join(vals, " ")), len(want), short(strings.Join(want, " ")))
+	}
+	// parents first
+	if len(got) <= 300 {
+		for i, e := range got {
+			if i == 0 {
+				if model.isContainer() && e.val != nodeLispCanon(model) {
+					return fail("order", "%s does not start with the root but with %s", src, e.path)
+				}
+				continue
+			}
+			parent := false
+			for _, o := range got[:i] {
+				if len(o.path) < len(e.path) && strings.HasPrefix(e.path, o.path) {
+					parent = true
+					break
+				}
+			}
+			if !parent {
+				return fail("order", "%s reported %s before any of its ancestors", src, e.path)
+			}
+		}
+	}
+	// the reported path, given back to get, must find the reported value
+	step := 1
+	if 12 < len(got) {
+		step = len(got)/12 + 1
+	}
+	for i := 0; i < len(got); i += step {
+		e := got[i]
+		w.let("sp", slip.String(e.path))
+		res, err := w.eval(`(bag-get b sp t)`)
+		if err != nil {
+			return fail("reported-path-unusable", "(bag-get b %q) => %s", e.path, err)
+		}
+		v := lispCanon(res)
+		if inst, isBag := bagOf(res); isBag {
+			v = nodeLispCanon(fromAny(inst.Any))
+		}
+		if v != e.val {
+			return fail("disagrees-with-get", "scan reported %s at %s, (bag-get b %q) gives %s", short(e.val), e.path, e.path, short(v))
+		}
+	}
+	x.CoverN("path:scan-nodes", len(got))
+	// leaves only
+	src = `(let ((acc '())) (bag-scan b ` + fn + ` :leaves-only t) acc)`
+	if send {
+		src = `(let ((acc '())) (send b :scan ` + fn + ` :leaves-only t) acc)`
+	}
+	got, ok = scan(src)
+	if !ok {
+		return false
+	}
+	var must, may []string
+	for _, m := range locs {
+		switch {
+		case !m.node.isContainer():
+			must = append(must, nodeLispCanon(m.node))
+		case len(m.node.A) == 0:
+			may = append(may, "nil") // an empty container has no children either
+		}
+	}
+	count := map[string]int{}
+	for _, e := range got {
+		count[e.val]++
+	}
+	for _, v := range must {
+		count[v]--
+	}
+	extra := 0
+	for v, c := range count {
+		switch {
+		case c < 0:
+			return fail("leaves-only-misses-a-leaf", "%s did not report the leaf %s", src, short(v))
+		case 0 < c && v == "nil":
+			extra += c
+		case 0 < c:
+			return fail("leaves-only-reports-a-branch", "%s reported %s", src, short(v))
+		}
+	}
+	if len(may) < extra {
+		return fail("leaves-only-reports-a-branch", "%s reported %d more empty values than there are empty containers", src, extra-len(may))
+	}
+	x.CoverN("path:scan-leaves", len(got))
+	return true
+}
+
 func (w *world) setValue(op *Op) (string, *sl.Err) {
 	switch op.ValMode {
 	case "bag":
@@ -1096,6 +1569,9 @@ func (w *world) setValue(op *Op) (string, *sl.Err) {
 		w.let("val", inst)
 	case "text":
 		w.let("val", slip.String(compactJSON(op.Val)))
+	case "stream":
+		w.let("valtxt", slip.String(compactJSON(op.Val)))
+		return "(make-string-input-stream valtxt)", nil
 	default:
 		w.let("val", toLisp(op.Val))
 	}
@@ -1154,6 +1630,9 @@ func execPath(x *fw.Ctx, c Case) {
 			fn, meth := "bag-set", ":set"
 			if op.Op == "parse" {
 				fn, meth = "bag-parse", ":parse"
+				if op.ValMode == "stream" {
+					fn, meth = "bag-read", ":read"
+				}
 			}
 			x.Cover("path:valmode=" + op.ValMode)
 			switch {
@@ -1215,6 +1694,10 @@ func execPath(x *fw.Ctx, c Case) {
 			}
 			x.Cover("path:undefined-error:" + why)
 			if d := frameDiff(model, actual, anchor); d != nil {
+				if shared {
+					x.Fail("path after=multi-location-container-set fail=later-step-diverges", "%s failed (%s) and changed %s", describe(), err, d)
+					return
+				}
 				x.Fail(sigBase+" fail=frame-broken-by-failed-call", "%s failed (%s) and changed a location not under %s: %s", describe(), err, anchor, d)
 				return
 			}
@@ -1276,6 +1759,13 @@ func execPath(x *fw.Ctx, c Case) {
 		if (op.Op == "set" || op.Op == "parse") && !op.Path.definite() && op.Val.isContainer() {
 			shared = true
 			x.Cover("path:multi-location-container-set")
+			if !strings.HasPrefix(c.Probe, "path:") {
+				// the matches now share one Go value (listed finding); what later
+				// steps do to them depends on the library's map iteration order.
+				// Only the deterministic probe block goes on from here.
+				x.Cover("path:stopped-after-multi-location-container-set")
+				return
+			}
 		}
 		model = actual
 		if !w.observeAll(model, b, phase) {
@@ -1342,6 +1832,10 @@ func exec(x *fw.Ctx, c Case) {
 		execPath(x, c)
 	case "parsehist":
 		execParseHist(x, c)
+	case "multi":
+		execMulti(x, c)
+	case "ints":
+		execInts(x, c)
 	default:
 		x.Trivial()
 	}
@@ -1350,9 +1844,12 @@ func exec(x *fw.Ctx, c Case) {
 func init() {
 	fw.Register(fw.Spec[Case]{
 		ID: "C18",
-		Rule: "five case kinds. text: generated document (depth<=5, every scalar kind, odd keys) rendered by the harness as JSON or SEN -> bag (10 entry points) -> bag-write under generated options -> parsed again; " +
+		Rule: "seven case kinds. text: generated document (depth<=5, every scalar kind, odd keys) rendered by the harness as JSON or SEN -> bag (10 entry points) -> bag-write under generated options -> parsed again; " +
 			"native: bag -> bag-native -> bag; path: document + history of <=6 set/parse/remove/modify/get/has/walk/get-all steps with generated paths, judged by a reference JSON-path model and re-observed on every location after each step; " +
-			"bridge: generated Go value -> SimpleObject -> Simplify / ObjectToBag; parsehist: a sequence of valid and invalid texts parsed one after the other, each valid one must still give its document. Each kind starts with a deterministic probe block (every scalar of the pools x format x options, every operation x path shape on a fixed document); " +
+			"bridge: generated Go value -> SimpleObject -> Simplify / ObjectToBag; parsehist: a sequence of valid and invalid texts parsed one after the other, each valid one must still give its document; " +
+			"ints: integers around 2^31, 2^53, 2^62, 2^63-1, -2^63 pushed through every Lisp->bag and bag->Lisp route, judged on the exact value; multi: several documents in one input for each-bag / json-parse (count, order, independence). " +
+			"bag-scan is re-observed after every path step (every node once, parents first, reported paths usable by get). Further deterministic blocks: the full bag-write option grid (pretty x depth x right-margin x json x color) over 10 fixed documents, every single removal on a root array and a root object with negative indices followed by more removals. " +
+			"Each kind starts with a deterministic probe block (every scalar of the pools x format x options, every operation x path shape on a fixed document); " +
 			"distinct = distinct case JSON; non-trivial = at least one conversion or path step was judged",
 		N:     nCases,
 		Gen:   gen,
